@@ -117,7 +117,7 @@ Step ==
                           [] OTHER -> frozen
            /\ unc' = IF e.ev \in {"Commit", "Reload"} THEN {} ELSE unc \cup {e.ev}
            /\ LET mid == IF txopen THEN {"midtx"} ELSE {} IN
-              /\ ftags' = CASE e.ev = "Copy" -> Append(ftags, MainTags \cup mid)
+              /\ ftags' = CASE e.ev = "Copy" -> Append(ftags, MainTags \cup mid \cup (IF CopyEq(e) # {} THEN {"tainted"} ELSE {}))
                              [] e.ev = "CopySwap" -> Append(ftags, MainTags)
                              [] OTHER -> ftags
               /\ mtag' = CASE e.ev = "CopySwap" -> mtag \cup mid \cup {"copied"}
